@@ -149,6 +149,17 @@ def c01(res):
                 "boundaries; F3 forests; x {bfs, dfs, on-demand run-to-completion} x threads. non-trivial = distinct "
                 "(graph, configuration) with >=2 reachable states for which a C01 conjunct had a true antecedent")
     run_family(res, "C01", FIELDS["C01"], graphs, cfgs)
+    # graphs larger than one 1500-state block (block boundaries, work sharing): light visitor log, judged per graph
+    import fam_market
+    wd = workdir("C01big-%s" % res.tier)
+    big = fam_market.f4_graphs(rng, q)[: (4 if q else 12)]
+    for g in big:
+        g["props"] = fam_market.big_props(rng)
+
+    def bcfgs(i, g):
+        return [gg.base_cfg(s, t, light=True, watchdog_ms=60000) for s in ("bfs", "dfs", "ondemand") for t in ((1, 2) if q else (1, 2, 4))]
+    fam_market.checker_runs(res, "C01", big, bcfgs, ["edges", "subset", "once", "complete"], wd, "c01big")
+    shutil.rmtree(wd, ignore_errors=True)
     res.assumptions += ["initial states of a model are distinct (the property's own proviso)",
                         "the recording visitor's mutex orders visits; only set/multiset facts are judged"]
 
@@ -196,6 +207,16 @@ def all_strategy_cfgs(rng, i, g, threads):
     return out
 
 
+def sym_cfgs(rng, g):
+    """DFS / simulation with symmetry reduction on a symmetric graph (plus the unreduced DFS)"""
+    c = [gg.base_cfg("dfs", t, symmetry=True) for t in (1, 2)]
+    c.append(gg.base_cfg("dfs", 1))
+    c.append(gg.base_cfg("sim", 1, symmetry=True, target_states=40, seed=rng.randint(0, 2 ** 32)))
+    if rng.random() < 0.3:
+        c.append(gg.base_cfg("dfs", 1, symmetry=True, finish=gg.finish_menu(rng, g)))
+    return c
+
+
 def c03(res):
     rng = random.Random(seed() * 1000 + 3)
     q = res.tier == "quick"
@@ -203,10 +224,16 @@ def c03(res):
     graphs += [gg.random_graph(rng, "F2-%d" % i, 3, 9) for i in range(400 if q else 5000)]
     graphs += [gg.random_forest(rng, "F3-%d" % i) for i in range(100 if q else 1500)]
     threads = [1, 2] if q else [1, 2, 4]
+    nplain = len(graphs)
+    graphs += [gg.symmetric_graph(rng, "F5-%d" % i, eventually=True) for i in range(150 if q else 2500)]
     res.rule = ("all five strategies (simulation with seeds, 1-2 threads) x finish conditions x targets x depth limits on "
                 "graphs with 1-5 mixed properties; every path returned by discoveries() judged by Graph!ValidWitness "
                 "(+ its action list re-executed on the table)")
-    run_family(res, "C03", FIELDS["C03"], graphs, lambda i, g: all_strategy_cfgs(rng, i, g, threads))
+    def cfgs(i, g):
+        if i < nplain:
+            return all_strategy_cfgs(rng, i, g, threads)
+        return sym_cfgs(rng, g)
+    run_family(res, "C03", FIELDS["C03"], graphs, cfgs)
 
 
 def c11(res):
@@ -223,7 +250,12 @@ def c11(res):
         graphs.append(g)
     threads = [1, 2] if q else [1, 2, 4]
 
+    nplain = len(graphs)
+    graphs += [gg.symmetric_graph(rng, "F5-%d" % i, eventually=True) for i in range(150 if q else 2500)]
+
     def cfgs(i, g):
+        if i >= nplain:
+            return sym_cfgs(rng, g)
         c = std_cfgs(threads)
         c += [x for x in all_strategy_cfgs(rng, i, g, [1]) if x["strategy"] == "sim"]
         return c
